@@ -60,7 +60,8 @@ def signature(scn, variant, kind):
     if i["fam"] == "append":
         return "ondisk/append/%s/n0=%d/nd=%d/steps=%s/labels=%s/%s" % (variant, i["n0"], i["nd"], "+".join(map(str, i["steps"])), i["mode"], kind)
     c = i["cfg"]
-    return "ondisk/multi/%s/nf=%d/rel=%s/axis=%s/align=%s/sort=%s/keys=%s/%s" % (variant, c["nf"], c["rel"], c["axis"], c["align"], c["sort"], c["keys"], kind)
+    return "ondisk/multi/%s/nf=%d/rel=%s/axis=%s/align=%s/sort=%s/keys=%s%s/%s" % (variant, c["nf"], c["rel"], c["axis"], c["align"], c["sort"], c["keys"],
+                                                                                   c.get("rekey", ""), kind)
 
 
 def _write_file(fn, name, arr_abs, codec):
@@ -336,10 +337,12 @@ def _replay_multi(scn, tmp, codec, profile):
     c = scn["in"]["cfg"]
     exp = scn["out"]
     xs = [[4, 2, 6], [4, 2, 6], [4, 2, 6]] if c["rel"] == "equal" else [[4, 2, 6], [2, 6, 8], [6, 4, 2]]
+    if c["rel"] == "pieces":
+        xs = [[8, 2], [6, 12], [10, 4]]          # consecutive pieces of one axis, listed in no particular order
     fns = []
     for k in range(c["nf"]):
         a = dict(dims=["x", "y"], kinds=["i", "f"], labs=[xs[k], [3, 7]], aattrs=[0, 0], dtype="f", attrs=0,
-                 cells=[100 * (k + 1) + j for j in range(1, 7)])
+                 cells=[100 * (k + 1) + j for j in range(1, 2 * len(xs[k]) + 1)])
         # the list of files is given in an order that is not the lexicographic one (under one of the two profiles)
         fn = os.path.join(tmp, ("m_%s.nc" % "zam"[k]) if profile == PROFILES[0] else ("m%d.nc" % k))
         ds = A.Dataset()
@@ -349,6 +352,10 @@ def _replay_multi(scn, tmp, codec, profile):
         fns.append(fn)
     kw = dict(align=c["align"], sort=c["sort"])
     keys = [10, 20, 30][:c["nf"]] if c["keys"] else None
+    if c.get("rekey"):
+        allx = [codec.enc(h, "i") for k in range(c["nf"]) for h in xs[k]]
+        keys = {"sorted": sorted(allx), "reversed": sorted(allx, reverse=True), "subset": sorted(allx)[1:-1][::-1],
+                "extra": sorted(allx) + [codec.enc(99, "i")]}[c["rekey"]]
     what = kind = None
     err = res = None
     given = list(fns)
@@ -376,6 +383,8 @@ def _replay_multi(scn, tmp, codec, profile):
                 ref = A.da.stack_ds(singles, axis="k", keys=keys if keys else [os.path.splitext(f)[0] for f in fns], **kw)
             else:
                 ref = A.da.concatenate_ds(singles, axis=c["axis"], **kw)
+                if c.get("rekey"):
+                    ref = ref.reindex_axis(keys, axis=c["axis"])
             from .c14 import _same
             if list(res.keys()) != list(ref.keys()):
                 what, kind = "variables %s vs %s" % (list(res.keys()), list(ref.keys())), "keys"
